@@ -15,7 +15,7 @@ from .values import (
 class Contract:
     def __init__(self, key, prop=None, setup=None, requires=(), ensures=(), raises=None, loops=None,
                  modifies=(), returns=None, pure_inline=False, closure=None, notes="", cases=None,
-                 inlined_loops=None, ghost_funcs=None, trusted=False, allow_exc=(), lemmas=(), variants=None, options=None):
+                 inlined_loops=None, ghost_funcs=None, trusted=False, allow_exc=(), lemmas=(), variants=None, options=None, ghost_exit=None, ghost_entry=None):
         self.key = key
         self.prop = prop
         self.setup = setup
@@ -35,6 +35,8 @@ class Contract:
         self.lemmas = list(lemmas)
         self.variants = dict(variants) if variants else None
         self.options = dict(options or {})
+        self.ghost_exit = ghost_exit
+        self.ghost_entry = ghost_entry
 
     @property
     def short(self):
@@ -49,6 +51,8 @@ class Registry(dict):
 
 
 def split_label(clause, default):
+    if isinstance(clause, tuple):
+        return clause[0], clause[1]
     if "::" in clause:
         lab, ex = clause.split("::", 1)
         return lab.strip(), ex.strip()
@@ -116,6 +120,8 @@ def length_of(eng, v):
         return v.n
     if isinstance(v, NArr):
         return v.shape[0]
+    if type(v).__name__ == "DFrame":
+        return v.n
     if isinstance(v, PList):
         return len(v.items) if v.items is not None else v.n
     if isinstance(v, DictListRef):
@@ -246,7 +252,14 @@ SPECLIB = {
 
 
 def eval_clause(eng, text, vars, globs=None, old_vars=None, entry_vars=None, extra=None):
-    """Evaluate a clause (Python expression text) in specification mode."""
+    """Evaluate a clause (Python expression text, or a callable(E, vars, old) that
+    builds the formula directly) in specification mode."""
+    if callable(text):
+        eng.spec_mode += 1
+        try:
+            return eng.truth(text(eng, dict(vars), old_vars))
+        finally:
+            eng.spec_mode -= 1
     node = ast.parse(text.strip(), mode="eval").body
     g = dict(globs or {})
     g.update(SPECLIB)
